@@ -800,4 +800,99 @@ m('c08-twin-ge', 'C08', 'neutral', IMFD, 'InMemoryFederatedData.slice', "start <
   mode='expr')
 m('c08-twin-sql-ge', 'C08', 'neutral', SQL, SQ + '._range_where', "return '(:start <= client_id)'", "return '(client_id >= :start)'")
 
+# ---------------------------------------------------------------- C20
+MSH = 'fedjax/models/shakespeare.py'
+MSO = 'fedjax/models/stackoverflow.py'
+DSH = 'fedjax/datasets/shakespeare.py'
+DSO = 'fedjax/datasets/stackoverflow.py'
+m('c20-shakespeare-bos', 'C20', 'break', MSH, 'create_lstm_model', "bos = 1", "bos = vocab_size + 1", expect='R-CONST')
+m('c20-shakespeare-eos', 'C20', 'break', MSH, 'create_lstm_model', "eos = 2", "eos = vocab_size + 2", expect='R-CONST')
+m('c20-shakespeare-oov', 'C20', 'break', MSH, 'create_lstm_model', "oov = vocab_size + 3", "oov = vocab_size + 2", expect='R-CONST')
+m('c20-shakespeare-vocab', 'C20', 'break', MSH, 'create_lstm_model', "full_vocab_size = vocab_size + 4",
+  "full_vocab_size = vocab_size + 3", expect='R-CONST')
+m('c20-dataset-reserved', 'C20', 'break', DSH, '_build_look_up_table', "oov = num_reserved + len(vocab)",
+  "oov = num_reserved + len(vocab) + 1", expect='R-CONST')
+m('c20-dataset-eos', 'C20', 'break', DSH, None, "EOS = 2", "EOS = 3", expect='R-CONST')
+m('c20-so-offset', 'C20', 'break', DSO, 'DefaultWordTokenizer.create_token_to_ids_fn.token_to_ids',
+  "token_ids = self._table.lookup(words) + 3", "token_ids = self._table.lookup(words) + 4", expect='R-CONST')
+m('c20-so-model-oov', 'C20', 'break', MSO, 'create_lstm_model', "oov = vocab_size + 3", "oov = vocab_size + 4", expect='R-CONST')
+m('c20-so-default-size', 'C20', 'break', MSO, None, "def f(vocab_size: int=10000): pass", "pass") if False else None
+m('c20-so-mask-literal', 'C20', 'break', MSO, 'create_lstm_model',
+  "metrics.SequenceTokenCount(masked_target_values=(pad,))", "metrics.SequenceTokenCount(masked_target_values=(1,))", mode='expr',
+  expect='R-CONST.use')
+m('c20-so-eos-metric', 'C20', 'break', MSO, 'create_lstm_model',
+  "metrics.SequenceTruncationRate(eos_target_value=eos, masked_target_values=(pad,))",
+  "metrics.SequenceTruncationRate(eos_target_value=bos, masked_target_values=(pad,))", mode='expr', expect='R-CONST.use')
+m('c20-logits-mask-misses-oov', 'C20', 'break', MSH, 'create_lstm_model',
+  "for i in (pad, bos, eos, oov):\n  logits_mask[i] = -jnp.inf", "for i in (pad, bos, eos):\n  logits_mask[i] = -jnp.inf",
+  expect='R-CONST.use')
+m('c20-loss-mask-eos', 'C20', 'break', MSH, 'create_lstm_model.train_loss', "per_token_loss *= targets != pad",
+  "per_token_loss *= targets != eos", expect='R-CONST.use')
+m('c20-cifar-floor-sqrt', 'C20', 'break', CIFAR, 'preprocess_image_tff',
+  "image_adjusted_std = np.maximum(image_std, 1 / np.sqrt(num_pixels))",
+  "image_adjusted_std = np.maximum(image_std, np.sqrt(num_pixels))", expect='R-SIB.tf')
+m('c20-cifar-floor-const', 'C20', 'break', CIFAR, 'preprocess_image_tff',
+  "image_adjusted_std = np.maximum(image_std, 1 / np.sqrt(num_pixels))", "image_adjusted_std = np.maximum(image_std, 1e-06)",
+  expect='R-SIB.tf')
+m('c20-cifar-batch-stats', 'C20', 'break', CIFAR, 'preprocess_image_tff',
+  "image_mean = np.mean(image, axis=(-1, -2, -3), keepdims=True)", "image_mean = np.mean(image, keepdims=True)",
+  expect='R-SIB.tf')
+m('c20-cifar-crop-offset', 'C20', 'break', CIFAR, 'preprocess_image_tff', "height_offset = (32 - crop_height) // 2",
+  "height_offset = 32 - crop_height", expect='R-OFFSET')
+m('c20-task-digits-mismatch', 'C20', 'break', 'fedjax/training/tasks.py', 'get_task',
+  "model = models.emnist.create_conv_model(only_digits=False)", "model = models.emnist.create_conv_model(only_digits=True)",
+  expect='R-TASK')
+m('c20-loss-batch-mean', 'C20', 'break', MSH, 'create_lstm_model.train_loss', "return jnp.mean(per_token_loss, axis=-1)",
+  "return jnp.mean(per_token_loss)", expect='R-ROW')
+m('c20-emnist-slice', 'C20', 'break', 'fedjax/datasets/emnist.py', 'domain_id', "cid = int(client_id[18:22])",
+  "cid = int(client_id[17:21])", expect='R-OFFSET')
+m('c20-twin-rsqrt-pow', 'C20', 'neutral', CIFAR, 'preprocess_image_tff',
+  "image_adjusted_std = np.maximum(image_std, 1 / np.sqrt(num_pixels))",
+  "image_adjusted_std = np.maximum(image_std, num_pixels ** (-0.5))")
+m('c20-twin-dataset-consts', 'C20', 'neutral', MSH, 'create_lstm_model', "full_vocab_size = vocab_size + 4",
+  "full_vocab_size = oov + 1")
+
+# ---------------------------------------------------------------- C16
+m('c16-byteorder', 'C16', 'break', SER, '_ndarray_to_bytes',
+  "if not arr.dtype.isnative:\n  arr = arr.astype(arr.dtype.newbyteorder('='))", "pass", expect='R-PAIR.byteorder')
+m('c16-fortran-bytes', 'C16', 'break', SER, '_ndarray_to_bytes', "arr.tobytes('C')", "arr.tobytes('A')", mode='expr',
+  expect='R-PAIR.layout')
+m('c16-reshape-f', 'C16', 'break', SER, '_ndarray_from_bytes',
+  "return np.frombuffer(buffer, dtype=_dtype_from_name(dtype_name), count=-1, offset=0).reshape(shape, order='C')",
+  "return np.frombuffer(buffer, dtype=_dtype_from_name(dtype_name), count=-1, offset=0).reshape(shape, order='F')",
+  expect='R-PAIR.layout')
+m('c16-ext-unhandled', 'C16', 'break', SER, '_msgpack_ext_unpack',
+  "if code == _MsgpackExtType.ndarray:\n  return _ndarray_from_bytes(data)\nelif code == _MsgpackExtType.native_complex:\n  complex_tuple = msgpack.unpackb(data)\n  return complex(complex_tuple[0], complex_tuple[1])\nelif code == _MsgpackExtType.npscalar:\n  ar = _ndarray_from_bytes(data)\n  return ar[()]\nelif code == _MsgpackExtType.bytes_ndarray:\n  return _object_ndarray_from_bytes(data)",
+  "if code == _MsgpackExtType.ndarray:\n  return _ndarray_from_bytes(data)\nelif code == _MsgpackExtType.native_complex:\n  complex_tuple = msgpack.unpackb(data)\n  return complex(complex_tuple[0], complex_tuple[1])\nelif code == _MsgpackExtType.bytes_ndarray:\n  return _object_ndarray_from_bytes(data)",
+  expect='R-SIB.ext')
+m('c16-ext-swapped-helper', 'C16', 'break', SER, '_msgpack_ext_unpack', "return _object_ndarray_from_bytes(data)",
+  "return _ndarray_from_bytes(data)", expect='R-SIB.ext-pair')
+m('c16-ext-code-clash', 'C16', 'break', SER, '_MsgpackExtType', "bytes_ndarray = 4", "bytes_ndarray = 1", expect='R-SIB.ext')
+m('c16-scalar-as-array', 'C16', 'break', SER, '_msgpack_ext_unpack', "return ar[()]", "return ar", expect='R-SIB.ext-pair')
+m('c16-not-strict', 'C16', 'break', SER, 'msgpack_serialize',
+  "return msgpack.packb(pytree, default=_msgpack_ext_pack, strict_types=True)",
+  "return msgpack.packb(pytree, default=_msgpack_ext_pack)", expect='R-PAIR.flags')
+m('c16-raw-mismatch', 'C16', 'break', SER, '_ndarray_from_bytes', "shape, dtype_name, buffer = msgpack.unpackb(data, raw=True)",
+  "shape, dtype_name, buffer = msgpack.unpackb(data, raw=False)", expect='R-PAIR.flags')
+m('c16-str-arrays-accepted', 'C16', 'break', SER, '_bytes_ndarray_to_bytes',
+  "if flat and (not isinstance(flat[0], bytes)):\n  raise ValueError('Only ndarrays holding bytes objects can be serialized.')",
+  "pass", expect='R-PAIR.flags')
+m('c16-complex-arity', 'C16', 'break', SER, '_msgpack_ext_pack',
+  "return msgpack.ExtType(_MsgpackExtType.native_complex, msgpack.packb((x.real, x.imag)))",
+  "return msgpack.ExtType(_MsgpackExtType.native_complex, msgpack.packb((x.real,)))", expect='R-SIB.ext-pair')
+m('c16-sqlite-no-zlib', 'C16', 'break', SQL, 'SQLiteFederatedDataBuilder.add_many.prepare_parameters',
+  "data = zlib.compress(serialization.msgpack_serialize(examples))", "data = serialization.msgpack_serialize(examples)",
+  expect='R-SIB.sqlite')
+m('c16-sqlite-columns-swapped', 'C16', 'break', SQL, 'SQLiteFederatedDataBuilder.add_many.prepare_parameters',
+  "return (client_id, data, num_examples)", "return (client_id, num_examples, data)", expect='R-SIB.sqlite')
+m('c16-sqlite-unvalidated', 'C16', 'break', SQL, 'SQLiteFederatedDataBuilder.add_many.prepare_parameters',
+  "num_examples = client_datasets.num_examples(examples, validate=True)",
+  "num_examples = client_datasets.num_examples(examples, validate=False)", expect='R-SIB.sqlite')
+m('c16-pickle-text-mode', 'C16', 'break', SER, 'load_state', "tf.io.gfile.GFile(path, 'rb')", "tf.io.gfile.GFile(path, 'r')",
+  mode='expr', expect='R-PAIR.pickle')
+m('c16-twin-dtype-str', 'C16', 'neutral', SER, '_ndarray_to_bytes',
+  "if not arr.dtype.isnative:\n  arr = arr.astype(arr.dtype.newbyteorder('='))",
+  "if not arr.dtype.isnative:\n  arr = arr.byteswap().view(arr.dtype.newbyteorder('='))")
+m('c16-twin-tobytes-default', 'C16', 'neutral', SER, '_ndarray_to_bytes', "arr.tobytes('C')", "arr.tobytes(order='C')", mode='expr')
+
 _E[:] = [e for e in _E if e is not None]
